@@ -10,6 +10,8 @@ import (
 
 	libaudit "github.com/elastic/go-libaudit/v2"
 
+	"github.com/elastic/go-libaudit/v2/vshim/vos"
+
 	"verif/engine/ev"
 	"verif/engine/guard"
 	"verif/engine/ksim"
@@ -157,11 +159,20 @@ func checkC16(tier string) int {
 			vals = []uint32{0}
 		}
 		for _, wm := range []libaudit.WaitMode{libaudit.WaitForReply, libaudit.NoWait} {
-			for _, v := range vals {
+			for vi, v := range vals {
 				sim := ksim.New(nil)
 				sim.NoDeviations = true
 				c := &libaudit.AuditClient{Netlink: sim}
+				// who the process is does not decide what is sent (the kernel decides what is allowed): every third
+				// value under another identity - not root, another pid
+				switch vi % 3 {
+				case 1:
+					vos.Install(&vos.Env{Uid: vos.Int(1000), Euid: vos.Int(1000), Gid: vos.Int(1000), Egid: vos.Int(1000)})
+				case 2:
+					vos.Install(&vos.Env{Uid: vos.Int(0), Euid: vos.Int(1000), Pid: vos.Int(1), Ppid: vos.Int(0)})
+				}
 				err := st.call(c, v, wm)
+				vos.Uninstall()
 				evals++
 				if err != nil {
 					rep("setter-error:"+st.name, "%s(%d, mode %d) returned %v with a kernel that acknowledges 0", st.name, v, wm, err)
@@ -633,6 +644,7 @@ func checkC16(tier string) int {
 		}
 	}
 	run.Sample("FromWireFormat(36-byte buffer inside a poisoned array) => 9 fields decoded, BacklogWaitTime and BacklogWaitTimeActual zero")
+	stackPass(run, "C16")
 	run.Set("evaluations", evals)
 	run.Set("distinct_nontrivial", nontrivial)
 	run.Set("rule", "every setter x value domain (all one-bit and all-but-one-bit values, boundaries, all 2^10 (quick) / 2^16 (thorough) low-half and high-half values) x both wait modes decoded at fixed UAPI offsets; GetStatus over one-hot field patterns; 20 exported constants against numbers transcribed from linux/audit.h; FromWireFormat over every length 0..80 x 3 contents x 5 placements (cap==len, inside 0xAA poison, inside 0x55 poison, flush against an inaccessible page at the end / at the start: an access outside the buffer faults); GetStatus replies of every length 0..80 flush against an inaccessible page; an AUDIT_GET reply that overtakes its acknowledgement. non-trivial = case with a non-zero value/field that matched the independent expectation")
